@@ -209,6 +209,27 @@ func HandleSelectStmt(p *SelectPlan, stmt *ast.SelectStmt) error {
 			p.columnCount = len(stmt.Fields.Fields)
 		}
 
+		// an aggregate used only in ORDER BY (ORDER BY COUNT(*)) became a helper
+		// column; it has to be merged across shards like a selected aggregate,
+		// otherwise the rows are sorted on the first shard's partial value
+		for _, idx := range p.orderByColumn {
+			if idx < p.originColumnCount || idx >= len(stmt.Fields.Fields) {
+				continue
+			}
+			if agg, ok := stmt.Fields.Fields[idx].Expr.(*ast.AggregateFuncExpr); ok {
+				if _, set := p.aggregateFuncs[idx]; set {
+					continue
+				}
+				merger, err := CreateAggregateFunctionMerger(agg, idx)
+				if err != nil {
+					return fmt.Errorf("create aggregate function merger for ORDER BY error, column index: %d, err: %v", idx, err)
+				}
+				if err := p.setAggregateFuncMerger(idx, merger); err != nil {
+					return fmt.Errorf("set aggregate function merger for ORDER BY error, column index: %d, err: %v", idx, err)
+				}
+			}
+		}
+
 		if err := handleHaving(p, stmt); err != nil {
 			return fmt.Errorf("handle Having error: %v", err)
 		}
